@@ -14,6 +14,7 @@ KNOWN_CODES = {
     501: 'a callback row on a missing or completed promise (a registration outlived its promise)',
     502: 'two callbacks or two tasks with one id',
     503: 'a registration disappeared without leaving its task',
+    507: 'a registration request was answered 20000 with the promise shown PENDING and no callback although the durable state holds neither the registration nor the task it became',
     506: 'a registration request was answered 20000 with the promise shown PENDING and no callback although its insert had lost against a completion: nothing is registered (D1)',
     101: 'a promise row disappeared, its creation fields / sort id changed, a completed row changed, or a pending row moved to a non-final state',
     102: 'two promise rows with one id',
@@ -63,7 +64,7 @@ PROPS = {
     },
     'C05': {
         'families': [('promise-race', 'sys', 100, 1000), ('promises', 'sys', 100, 1000), ('promises-crash', 'sys', 50, 500), ('tasks', 'sys', 60, 600)],
-        'monitors': ['C05_mon', 'C05x_mon'],
+        'monitors': ['C05_mon', 'C05x_mon', 'C05y_mon'],
         'statement': 'forall cfg sch, sch_wf sch -> C05_mon (events cfg sch) = []  (Props/C05.v: C05_holds_partial; the clause about the answer to a registration request, code 506, is evaluated on traces only)',
         'assumptions': ['arriving CompletePromise requests name resolved/rejected/canceled', 'the acknowledgement clause (506) is decided on the explored schedules only'],
         'level_text': 'Theorem C05_holds_partial: for every schedule of well-formed requests no callback row exists on a missing or completed promise (501), callback and task ids are unique (502) and a registration only disappears by leaving its task in the same commit (503); store theorem C05_completion_converts for arbitrary databases/arguments; derived-id injectivity proved under no-colon and refuted in general (D2). The clause about the answer to a registration request (506) is evaluated on every implementation trace (it found D1, repaired by a fix: commit).',
